@@ -14,7 +14,7 @@ RULE = ("generated programs of the F77/F90 subset fparser1 supports (program/sub
         "nesting computed by the Lean model Fp.One.nest1 over independently classified lines == the real nesting (or the same "
         "error line/block). non-trivial = accepted source with >= 2 nested blocks")
 ASSUMPTIONS = ["fparser1's per-statement regex parsers are leaves: their text is compared, not modelled"]
-TIE_MODULES = ["FparserModel.One", "FparserModel.Norm"]
+TIE_MODULES = ["FparserModel.One", "FparserModel.Norm", "FparserModel.One2", "FparserModel.Generated.One2Tables", "FparserModel.Proofs.One2Generated"]
 
 
 ANALYZE_SAMPLES = [
@@ -162,6 +162,7 @@ def cases(tier, seed):
 
 
 def run(tier, rep, st):
+    util.sub_cosim(rep, tier, "cosim_one2", "Fp.One2", 150, 1500)
     results = engine.run_cases(__name__, cases(tier, rep.seed), rep)
     rep.evaluations = sum(r.get("evals", 0) for r in results)
     rep.coverage["accepted_with_nesting"] = sum(r.get("nkeys", 0) for r in results)
